@@ -44,6 +44,13 @@ CHECKS["C09"] = (
     "5.C09",
 )
 
+CHECKS["C07"] = (
+    "bounded symbolic execution (CrossHair+z3): document mutations chosen by symbolic selectors (path x operation x replacement value of every YAML type) and symbolic strings in scalar fields, loaded in strict and collecting mode",
+    "Every single mutation (delete / replace by 17 values of every YAML type / non-string key) at every key path of five base documents (rule, correlation, filter, 4-document collection with global/repeat actions, rule with a pre-existing fault) and symbolic strings (len <= 1..3) in 13 scalar fields. Oracle: only SigmaError escapes in strict mode, nothing escapes in collecting mode, errors non-empty iff strict raises, first collected == raised.",
+    TB,
+    "5.C07",
+)
+
 NOT_APPLICABLE = {}
 
 ALL = [f"C{n:02d}" for n in range(1, 21)]
